@@ -683,6 +683,19 @@ pub fn library() -> &'static Vec<Pkg> {
                 }
             }
         }
+        for (name, version, text) in WAT_COMPONENTS_5 {
+            let bytes = wat::parse_str(text)
+                .unwrap_or_else(|e| panic!("corpus component {name} does not assemble: {e:?}"));
+            let (imports, exports) = names_of(&bytes);
+            v.push(Pkg {
+                name,
+                version: *version,
+                bytes,
+                imports,
+                exports,
+                is_component: true,
+            });
+        }
         v
     })
 }
@@ -701,6 +714,115 @@ const WIT_COMPONENTS_4: &[(&str, Option<&str>, &str, &[&str])] = &[(
 const DERIVED: &[(&str, &str, usize, u8)] = &[
     // the core module type's func export becomes an exact func entity
     ("odd:exact-func", "odd:core-module", 64, 5),
+];
+
+/// Fifth generation (appended after everything else): components that are valid under the
+/// features `Package::from_bytes` validates with but use corners no toolchain-made component
+/// of the library has — core module types with every extern kind, concrete reference types,
+/// value imports / exports, values inside instance and component types, resources defined
+/// by the component itself, a function import over an aliased list type.
+const WAT_COMPONENTS_5: &[(&str, Option<&str>, &str)] = &[
+    (
+        "odd:core-externs",
+        None,
+        r#"(component
+  (core type $mt (module
+    (type $t (func (param i32 i64 f32 f64 v128) (result i32 i32)))
+    (import "a" "f" (func (type $t)))
+    (import "a" "t" (table 1 10 funcref))
+    (import "a" "t64" (table i64 1 externref))
+    (import "a" "m" (memory 1 2))
+    (import "a" "m64" (memory i64 1))
+    (import "a" "ms" (memory 1 2 shared))
+    (import "a" "g" (global (mut i64)))
+    (import "a" "gv" (global v128))
+    (import "a" "gr" (global (ref null func)))
+    (import "a" "tag" (tag (param i32)))
+    (export "e" (func (type $t)))
+    (export "x" (table 0 externref))
+    (export "mem" (memory 1))
+    (export "glob" (global f32))
+  ))
+  (import "mod" (core module $m (type $mt)))
+  (export "mod-out" (core module $m))
+)"#,
+    ),
+    (
+        "odd:core-refs",
+        None,
+        r#"(component
+  (core type (module
+    (type $t (func))
+    (import "a" "b" (func (param (ref null $t))))
+  ))
+  (import "m" (core module (type 0)))
+)"#,
+    ),
+    (
+        "odd:value",
+        None,
+        r#"(component (import "v" (value $v string)) (import "f" (func)) (export "g" (func 0)) (export "w" (value $v)))"#,
+    ),
+    (
+        "odd:valtype",
+        None,
+        r#"(component
+  (type $c (component (import "v" (value u32)) (export "o" (value (list u8)))))
+  (export "c" (type $c))
+  (type $i (instance (export "w" (value string))))
+  (import "i" (instance (type $i)))
+)"#,
+    ),
+    (
+        "odd:res",
+        None,
+        r#"(component
+  (type $r (resource (rep i32)))
+  (export $r2 "r" (type $r))
+  (core module $m (func (export "f") (result i32) i32.const 1))
+  (core instance $i (instantiate $m))
+  (type $ft (func (result (own $r2))))
+  (func $mk (type $ft) (canon lift (core func $i "f")))
+  (export "mk" (func $mk))
+  (import "iface" (instance $imp (export "q" (type (sub resource))) (export "g" (func))))
+  (export "iface-out" (instance $imp))
+)"#,
+    ),
+    (
+        "test:consumer",
+        None,
+        r#"(component
+  (type $bytes (list u8))
+  (import "process" (func (param "data" $bytes) (result $bytes)))
+  (type $it (instance
+    (type $rec (record (field "a" u32) (field "b" (list u8))))
+    (export "rec" (type $rec2 (eq $rec)))
+    (type $al (list u8))
+    (export "buf" (type $al2 (eq $al)))
+    (export "take" (func (param "r" $rec2) (param "b" $al2) (result $al2)))
+  ))
+  (import "test:consumer/sink" (instance (type $it)))
+  (export "process-out" (func 0))
+)"#,
+    ),
+    (
+        "test:two-shape",
+        None,
+        r#"(component
+  (type $ct (component
+    (import "alpha" (func))
+    (import "beta" (func))
+    (export "gamma" (func))
+    (export "delta" (func))
+    (export "epsilon" (func))
+  ))
+  (import "c" (component (type $ct)))
+  (import "x" (func))
+  (import "y" (func))
+  (import "z" (func))
+  (export "x-out" (func 0))
+)"#,
+    ),
 ];
 
 pub fn describe() -> String {
